@@ -406,6 +406,9 @@ func pathUrl(p path.Path) string {
 		b = append(b, t...)
 		b = append(b, '/')
 	}
+	if len(b) == 0 {
+		return ""
+	}
 	return string(b[0 : len(b)-1])
 }
 
@@ -915,6 +918,9 @@ func torfile(w http.ResponseWriter, r *http.Request, t *tor.Torrent) {
 }
 
 func m3uentry(w http.ResponseWriter, host string, hash hash.Hash, path path.Path) {
+	if len(path) == 0 {
+		return
+	}
 	title := strings.NewReplacer(",", "", "\r", "", "\n", "").
 		Replace(path[len(path)-1])
 	fmt.Fprintf(w, "#EXTINF:-1,%v\n", title)
